@@ -44,7 +44,7 @@ a_kinds! {
     ScopeCreate, ScopeEnd, ScopeDrop, LifetimeBind, LifetimeCheck, LifetimeDrop,
     HandleClone, HandleDrop, Yield, Shutdown,
     // Blocking consumers (exercise wake-ups of event streams).
-    EventWaiter, ListenerWaiter, DiscWaiter,
+    EventWaiter, ListenerWaiter, DiscWaiter, LifetimeWaiter,
     // Deterministic rounds with exact expectations (C04 / C10 at API level).
     EventRound, ListenerRound,
     // The client's introspection API.
